@@ -1,15 +1,14 @@
 from pyvc.runner import Prop, Fn, Lem, Ground, Native
+from props.parser_common import expression_callbacks, property_callbacks, file_callbacks, ASSUMPTIONS
 
 PROP = Prop(
     'C18',
-    modules=[],
-    tasks=[],
+    modules=['contracts.parser_c01'],
+    tasks=[*file_callbacks('C18')],
     bounded=[Native('bounded.parser_native.files')],
-    level='exploration',
-    explanation='BOUNDED at this commit: the deciding part of this property lies in third-party code (Lark LALR parser and lexer; '
-                'attrs.asdict / json / argparse for the CLI), which no contract on /repo code can decide; the parser callbacks '
-                'are being put under contract separately.',
-    assumptions=['A-LARK: Lark decides precedence, associativity, layout, accept/reject, longest match from the grammar text',
-                 'A-3P: attrs.asdict, json.dumps, argparse'],
-    trusted_base=['CPython', 'lark 1.3.1'],
+    dep_tags=['C01'],
+    level='other',
+    explanation='proved: hpl_file returns its children in order (widths 1, 2, 4), the annotation callbacks build their pairs, metadata() raises HplSyntaxError iff a key repeats and otherwise returns exactly the given mapping (key subsets/orders enumerated). BOUNDED (A-LARK): segmentation of a file into properties and attribution of annotations; metadata attachment in hpl_property (metadata is outside the value model).',
+    assumptions=ASSUMPTIONS,
+    trusted_base=['z3 5.1.0', 'pyvc symbolic executor', 'lark 1.3.1 (bounded only)'],
 )
